@@ -73,3 +73,16 @@ package device
 //vc:func (*state).compare
 //vc:  init compareInfoShown = false
 //vc:  ensures[C13] @compareResultAnnounced result == nil ==> compareInfoShown
+
+// C18: the configuration handed out by loadSpoc is the IPv4 file merged with
+// the IPv6 file merged with the raw file of that path - for every caller (the
+// compare against a device and both sides of the file compare mode).
+//vc:ghost var rawMergedFor string
+//vc:func (*state).addRaw
+//vc:  set rawMergedFor = v4Path
+//vc:  assert[C18] at "s.loadSpocFile(rawPath)" @rawFileNextToTheCodeFile arg1 == v4Path + ".raw"
+//vc:  ensures[C18] rawMergedFor == v4Path
+//vc:func (*state).loadSpoc
+//vc:  assert[C18] at "s.loadSpocFile(v6Path)" @ipv6FileOfThisDevice arg1 == v6Path
+//vc:  assert[C18] at "s.addRaw(conf, v4Path)" @rawMergedLast arg2 == v4Path
+//vc:  ensures[C18] @rawFileOfThisConfigurationMerged result1 == nil ==> rawMergedFor == v4Path
